@@ -8,14 +8,16 @@ Definition res_code (r : init_result) : nat :=
 
 (* what: 0 constructor (tensor/Tensor/astensor/astype target kind k)
          1 operation with inputs `ins` and output kind k (tracked: op_const; untracked: the argument goes straight to the constructor)
-         2 copy of a tensor with flag (hd ins) *)
+         2 copy of a tensor with flag (hd ins)
+         3 in-place target with flag (hd ins), operand flags (tl ins) *)
 Definition ccase := (nat * dkind * bool * option bool * list bool * nat)%type.
 Definition model_code (c : ccase) : nat :=
   let '(what, k, track, arg, ins, _) := c in
   match what with
   | 0 => res_code (init_const k track arg)
   | 1 => if track then res_code (op_const k ins arg) else res_code (init_const k false arg)
-  | _ => res_code (copy_const k track (hd true ins) arg)
+  | 2 => res_code (copy_const k track (hd true ins) arg)
+  | _ => res_code (inplace_const (hd true ins) arg (tl ins))
   end.
 Definition ccase_ok (c : ccase) : bool := let '(_, _, _, _, _, e) := c in Nat.eqb (model_code c) e.
 Fixpoint cfailing_from (i : nat) (cs : list ccase) : list nat :=
